@@ -10,7 +10,7 @@ MODULES = ["GroupbyVerif.Props.C18"]
 RULE = ("the full table (public operation x array argument x perturbation) is enumerated in both tiers: ~45 operations (all GroupBy reductions, "
         "transform, var/std/median/quantile/apply/agg/ratio/subset_ratio/density, cumulative, rolling, shift/diff, ema with times, head/tail/nth, "
         "group_nearby_members, crosstab, and the top-level ema / ema_grouped) x each of their array arguments (values, second values, boolean mask, "
-        "timestamps) x {length off by -3..+3, permuted / shifted / duplicated pandas index}; the operations accepting them also with datetime64 (naive and tz-aware), timedelta64, int32 and bool values, and values given as DataFrame / list of two inputs / polars, and a misaligned second key; expected outcome: an exception for every misaligned argument, "
+        "timestamps) x {length off by -3..+3, permuted / shifted / duplicated pandas index (all arguments pandas objects, or only the keys and the perturbed argument)}; rolling / ema also in the group-sorted output layout (index_by_groups=True); the operations accepting them also with datetime64 (naive and tz-aware), timedelta64, int32 and bool values, and values given as DataFrame / list of two inputs / polars, and a misaligned second key; expected outcome: an exception for every misaligned argument, "
         "a result for the aligned call; base data varies with the seed; non-trivial = every perturbed call; distinct = distinct (operation, argument, perturbation)")
 ASSUMPTIONS = ["the untimed top-level ema(values) has a single array argument, so nothing to be misaligned with: only its aligned call is exercised",
                "integer-position masks and slices are exempt from the length rule by design",
@@ -28,6 +28,7 @@ TEMPORAL_OK = ["count", "min", "max", "first", "last", "T:max", "cummin", "cumma
 VKINDS = ["datetime", "datetime_tz", "timedelta", "int", "bool"]
 XOPS = ["sum", "mean", "min", "first", "count", "var", "agg", "T:sum", "cumsum", "cummax", "rolling_sum", "rolling_max", "shift", "diff", "ema", "head", "nth"]
 XCONT = ["frame", "list2", "polars"]
+BYGROUPS = ["rolling_sum", "rolling_mean", "rolling_min", "rolling_max", "ema", "ema_timed"]   # operations with index_by_groups=True
 PERTURB = [("len", d) for d in (-3, -2, -1, 1, 2, 3)] + [("index", k) for k in ("permuted", "shifted", "duplicated")]
 
 
@@ -59,8 +60,19 @@ def gen_cases(tier, rng):
                 for p in PERTURB:
                     if (p[0] == "len" and n + p[1] < 0) or _same_index(p, n):
                         continue
-                    for container in (["series"] if p[0] == "index" else ["ndarray", "series"]):
+                    # "mixed": only the keys and the perturbed argument are pandas objects, every other argument is a bare array
+                    # (the top-level functions have no keys: a single pandas argument has nothing to be misaligned with)
+                    for container in ((["series"] if op.startswith("top_") else ["series", "mixed"]) if p[0] == "index" else ["ndarray", "series"]):
                         yield dict(op=op, arg=arg, perturb=list(p), container=container, **base)
+        # the group-sorted output layout re-orders every argument by position before the kernels see it
+        for op in BYGROUPS:
+            yield dict(op=op, arg=None, perturb=None, by_groups=True, **base)
+            for arg in ARGS.get(op, ["values", "mask"]):
+                for p in PERTURB:
+                    if (p[0] == "len" and n + p[1] < 0) or _same_index(p, n):
+                        continue
+                    for container in (["series", "mixed"] if p[0] == "index" else ["ndarray", "series"]):
+                        yield dict(op=op, arg=arg, perturb=list(p), container=container, by_groups=True, **base)
         # other value dtypes (temporal values are converted before the kernels: the index must be validated before that)
         for op in TEMPORAL_OK:
             for vkind in VKINDS:
@@ -94,9 +106,10 @@ def evaluate(case, drv):
 
     n, op = case["n"], case["op"]
     arg, perturb = case["arg"], case["perturb"]
-    key = repr((op, arg, perturb, case.get("container"), n, case.get("vkind")))
-    res = dict(tags=[f"op:{op}", f"arg:{arg}", f"perturb:{perturb[0] if perturb else 'aligned'}", f"cont:{case.get('container')}", f"vkind:{case.get('vkind', 'float')}"],
-               size=n, key=key, nontrivial=True, bucket=(op, arg, perturb[0] if perturb else "aligned", case.get("container"), case.get("vkind")))
+    key = repr((op, arg, perturb, case.get("container"), n, case.get("vkind"), case.get("by_groups")))
+    bg = {"index_by_groups": True} if case.get("by_groups") else {}
+    res = dict(tags=[f"op:{op}", f"arg:{arg}", f"perturb:{perturb[0] if perturb else 'aligned'}", f"cont:{case.get('container')}", f"vkind:{case.get('vkind', 'float')}", f"layout:{'by-groups' if case.get('by_groups') else 'rows'}"],
+               size=n, key=key, nontrivial=True, bucket=(op, arg, perturb[0] if perturb else "aligned", case.get("container"), case.get("vkind"), bool(case.get("by_groups"))))
     base_index = pd.Index([f"r{i}" for i in range(n)])
     cont = case.get("container", "series")
 
@@ -190,13 +203,13 @@ def evaluate(case, drv):
         if op == "density":
             return gb.density(v, mask=m)
         if op.startswith("rolling_"):
-            return getattr(gb, op)(v, window=2, min_periods=1, mask=m)
+            return getattr(gb, op)(v, window=2, min_periods=1, mask=m, **bg)
         if op in ("shift", "diff"):
             return getattr(gb, op)(v, window=1, mask=m)
         if op == "ema":
-            return gb.ema(v, alpha=0.5, mask=m)
+            return gb.ema(v, alpha=0.5, mask=m, **bg)
         if op == "ema_timed":
-            return gb.ema(v, halflife="2s", times=make("times", "times"), mask=m)
+            return gb.ema(v, halflife="2s", times=make("times", "times"), mask=m, **bg)
         if op in ("head", "tail"):
             return getattr(gb, op)(v, 2, keep_input_index=True)
         if op == "nth":
